@@ -87,7 +87,7 @@ fn v6_configs(full: bool) -> Vec<Cfg6> {
         }
     }
     // nested pair 2001:db8:85a3::/m1 and the full address /m2
-    let (m1s, m2s): (Vec<u8>, Vec<u8>) = if full { ((0..=48).step_by(3).collect(), (48..=128).step_by(5).collect()) } else { (vec![0, 32, 47, 48], vec![48, 49, 64, 127, 128]) };
+    let (m1s, m2s): (Vec<u8>, Vec<u8>) = if full { ((0..=48).step_by(6).collect(), (48..=128).step_by(10).collect()) } else { (vec![0, 32, 47, 48], vec![48, 49, 64, 127, 128]) };
     for &m1 in &m1s {
         for &m2 in &m2s {
             v.push((2, [V6_A & mask6(48), V6_A], [m1, m2]));
@@ -95,7 +95,7 @@ fn v6_configs(full: bool) -> Vec<Cfg6> {
         }
     }
     let mut s = 0x2545_F491_4F6C_DD1Du64;
-    for _ in 0..(if full { 256 } else { 24 }) {
+    for _ in 0..(if full { 96 } else { 24 }) {
         let a = next_rand(&mut s);
         let b = next_rand(&mut s);
         let c = next_rand(&mut s);
@@ -131,10 +131,9 @@ fn nodes_lit(nodes: &[(u32, u16, u16)], pad: usize) -> String {
 
 fn emit4(out: &mut String, name: &str, cfgs: &[Cfg4]) {
     let built: Vec<_> = cfgs.iter().map(build4).collect();
-    let max4 = built.iter().map(|b| b.0.len()).max().unwrap();
-    let max6 = built.iter().map(|b| b.1.len()).max().unwrap();
-    writeln!(out, "pub const {name}_N4: usize = {max4};\npub const {name}_N6: usize = {max6};").unwrap();
-    writeln!(out, "pub static {name}: [Case<u32, {name}_N4, {name}_N6>; {}] = [", cfgs.len()).unwrap();
+    let (max4, max6) = (16, 1);
+    assert!(built.iter().all(|b| b.0.len() <= max4 && b.1.len() <= max6), "trie larger than the table width");
+    writeln!(out, "pub static {name}: [Case<u32, 16, 1>; {}] = [", cfgs.len()).unwrap();
     for (c, b) in cfgs.iter().zip(&built) {
         writeln!(
             out,
@@ -147,10 +146,9 @@ fn emit4(out: &mut String, name: &str, cfgs: &[Cfg4]) {
 }
 fn emit6(out: &mut String, name: &str, cfgs: &[Cfg6]) {
     let built: Vec<_> = cfgs.iter().map(build6).collect();
-    let max4 = built.iter().map(|b| b.0.len()).max().unwrap();
-    let max6 = built.iter().map(|b| b.1.len()).max().unwrap();
-    writeln!(out, "pub const {name}_N4: usize = {max4};\npub const {name}_N6: usize = {max6};").unwrap();
-    writeln!(out, "pub static {name}: [Case<u128, {name}_N4, {name}_N6>; {}] = [", cfgs.len()).unwrap();
+    let (max4, max6) = (1, 64);
+    assert!(built.iter().all(|b| b.0.len() <= max4 && b.1.len() <= max6), "trie larger than the table width");
+    writeln!(out, "pub static {name}: [Case<u128, 1, 64>; {}] = [", cfgs.len()).unwrap();
     for (c, b) in cfgs.iter().zip(&built) {
         writeln!(
             out,
@@ -169,9 +167,17 @@ fn main() {
     let mut out = String::new();
     out.push_str("// @generated by build.rs from /repo/ntp-proto's IpFilter::new (current working tree)\n");
     emit4(&mut out, "V4_QUICK", &v4_configs(false));
-    emit4(&mut out, "V4_FULL", &v4_configs(true));
+    let full4 = v4_configs(true);
+    for (k, chunk) in full4.chunks(1101).enumerate() {
+        emit4(&mut out, &format!("V4_FULL_{k}"), chunk);
+    }
     emit6(&mut out, "V6_QUICK", &v6_configs(false));
-    emit6(&mut out, "V6_FULL", &v6_configs(true));
+    emit6(&mut out, "V6_MINI", &v6_configs(false)[..40]);
+    let full6 = v6_configs(true);
+    for (k, chunk) in full6.chunks(130).enumerate() {
+        emit6(&mut out, &format!("V6_FULL_{k}"), chunk);
+    }
+    writeln!(out, "pub const V4_FULL_CHUNKS: usize = {};\npub const V6_FULL_CHUNKS: usize = {};", full4.chunks(1101).count(), full6.chunks(130).count()).unwrap();
     let dir = std::env::var("OUT_DIR").unwrap();
     std::fs::write(std::path::Path::new(&dir).join("c31_tables.rs"), out).unwrap();
 }
